@@ -4,7 +4,10 @@ TRUSTED_BASE = [
     "Lean 4.33.0 kernel (thorough tier: re-checked with leanchecker)",
     "axioms: at most propext, Classical.choice, Quot.sound (audited with #print axioms on every run)",
     "the statements in lean/DL/Props/*.lean express the property (human reading)",
-    "translator/extract.py writes the tables that are in the source (ast / Lark's own loader)",
+    "translator: extract.py writes the grammar tables Lark's own loader reads from the .lark files and the particle-name maps of the "
+    "installed `particle` package; probe.py establishes the modelling-code tables (published model names, spin-factor table, reset "
+    "policy of the readers, output sinks, coefficient suffixes) by the behaviour of the current source on probe inputs, in a fresh "
+    "interpreter",
     "harness: operation encoding, canonicalisation, S-expression codec, Fraction<->float conversion",
     "modelled, tied by sampled behaviour only: Lark LALR engine and contextual lexer, CPython float/sorted/dict/re/deepcopy, "
     "pandas, graphviz, numpy, the `particle` package",
